@@ -61,6 +61,9 @@ CHECKS = {
  "C07": ("engine-b", "model_checking", B,
          "every element (netlist, library, definition, instance, port, cable, wire, inner pin, outer pin) of every design of the input space (F_hier incl. two libraries, instance outside the top hierarchy, top instance also a child, unnamed elements, nested user data) is cloned; a parallel walk pairs original and copy and every link of the copy must be the image of the original's link or cut where it leaves the cloned sub-tree (nothing points into the original, reference sets as documented, data deep-copied, source unchanged apart from documented reference-set additions); netlist copies: closure, well-formedness, agreement of all flat and hierarchical queries; then every edit tail (12-operation alphabet incl. uniquify and flatten, length <= 1 / <= 2) on the copy or the original leaves the other's fingerprint unchanged",
          "bounded: quick = K1/K8 with all wirings + first wirings of the other skeletons, thorough = whole family; expected shape of element clones per the clone() docstrings"),
+ "C15": ("engine-b", "fault_enumeration", "exhaustive single-fault enumeration (every token-level corruption of every base file) executed on the real readers, residue oracle over all process-wide state",
+         "for valid EDIF / Verilog / EBLIF base files from the independent writers every single token-level corruption (truncation at each token boundary, deletion, duplication, replacement by each of ( ) undeclared-name unsupported-keyword number nothing; EDIF reference tokens replaced by undeclared names) is parsed under a wall-clock alarm + deterministic line budget, with the DEFAULT and the EDIF policy in force: the reader raises or returns a well-formed netlist, dangling references / unsupported constructs raise, and all process-wide state (every module-level mutable global, naming policy, registries) plus a fixed probe script are as before the call; since every single event returns to the initial residue, every sequence does",
+         "bounded: single faults on 6 base files; 'raises' = any Exception"),
 }
 m = {
  "version": 1,
